@@ -525,20 +525,22 @@ func c12gSealedGate(c *eng.Ctx) {
 		c.Unresolved("namespace.RootNamespaceID")
 		return
 	}
-	sinks := instrsOf(eng.Calls(f, `^vault\.\(\*Core\)\.(handleCancelableRequest|handleInlineAuth)$`))
+	sinks := nfIns(nfCalls(f, `^vault\.\(\*Core\)\.(handleCancelableRequest|handleInlineAuth)$`))
 	if !c.Floor(f, "request handed on (inline auth / handleCancelableRequest)", len(sinks), 2) {
 		return
 	}
-	// the namespace tested is the one resolved for the request
-	var sealedEdges []eng.Edge
-	for _, sc := range eng.Calls(f, `^vault\.\(\*Core\)\.NamespaceSealed$`) {
-		if ok, _, _ := eng.OriginsMatch(sc.Common().Args[1], `^call:vault\.\(\*NamespaceStore\)\.ResolveNamespaceFromRequest#0$`); !ok {
-			continue
-		}
-		if v := sc.Value(); v != nil {
-			sealedEdges = append(sealedEdges, eng.BoolEdges(v, false)...)
-		}
+	// the namespace tested is the one resolved for the request; the test stands here or in a
+	// helper of this package that refuses (non-nil error) unless it came out false
+	isResolved := func(o eng.Origin) bool {
+		return o.Kind == "call" && o.Desc == "vault.(*NamespaceStore).ResolveNamespaceFromRequest#0"
 	}
+	sealedEdges := c12gGateEdges(f, nil, func(nc nfCall, fr *nfFrame) bool {
+		if nc.Name != "vault.(*Core).NamespaceSealed" || len(nc.Args) != 2 {
+			return false
+		}
+		ok, _ := nfAll(nc.Args[1], fr, isResolved)
+		return ok
+	}, false, 2)
 	g := eng.Or(eng.Guard{Desc: "NamespaceSealed(<resolved namespace>) == false", Edges: sealedEdges},
 		eng.G(f, `^vault\.\(\*NamespaceStore\)\.ResolveNamespaceFromRequest\(\)#0\.ID == `+reQuote(strconv.Quote(rootID))+`$`, true))
 	if len(sealedEdges) == 0 {
@@ -919,4 +921,131 @@ func c12gNamespaceOfView(pv ssa.Value) (nss, storages []ssa.Value, ok bool) {
 		}
 	}
 	return nss, storages, true
+}
+
+// ---------- C12.4 every storage key of the cubbyhole backend is <request>.ClientToken + "/" + …
+// (the call direct, through a method value or inside a closure of the handler; the key built
+// in place, hoisted into a local or handed to the closure as a parameter)
+func c12gCubbyholeKeys(c *eng.Ctx) {
+	c.Clause("R5", "C12.4")
+	tokF := c.P.Field("logical.Request.ClientToken")
+	if tokF == nil {
+		c.Unresolved("logical.Request.ClientToken")
+		return
+	}
+	// the argument(s) a closure's parameter stands for, in the enclosing function
+	callerVals := func(v ssa.Value) ([]ssa.Value, bool) {
+		p, ok := v.(*ssa.Parameter)
+		if !ok || p.Parent() == nil || p.Parent().Parent() == nil {
+			return []ssa.Value{v}, true
+		}
+		g := p.Parent()
+		var out []ssa.Value
+		for _, ci := range nfAllCalls(g.Parent()) {
+			if arg := nfArgFor(ci, p); arg != nil {
+				out = append(out, arg)
+			}
+		}
+		return out, len(out) > 0
+	}
+	site := "cubbyhole storage key prefixed by the client token"
+	nCub := 0
+	for _, f := range c.P.Funcs {
+		if !strings.HasPrefix(eng.FuncName(f), "vault.(*CubbyholeBackend).") {
+			continue
+		}
+		for _, nc := range nfCalls(f, `logical\.\(?Storage\)?>?\.(Get|Put|Delete|List|ListPage)$`) {
+			m := nc.Name[strings.LastIndex(nc.Name, ".")+1:]
+			a := nc.Args
+			k := len(a) - 1
+			if m == "ListPage" {
+				k = len(a) - 3
+			}
+			if k < 0 {
+				continue
+			}
+			nCub++
+			var keys []ssa.Value
+			followed := true
+			if m == "Put" {
+				entries, ok := callerVals(a[k])
+				followed = ok
+				for _, e := range entries {
+					ks := eng.StructLitField(e, "Key")
+					if len(ks) == 0 {
+						followed = false
+					}
+					keys = append(keys, ks...)
+				}
+			} else {
+				keys, followed = callerVals(a[k])
+			}
+			if !followed || len(keys) == 0 {
+				c.Undecided(f, site, nc.In.Pos(), "the key handed to the cubbyhole's storage ("+eng.ExprDeep(a[k])+") is not built where the rule can see it (moved?); the rule cannot be evaluated")
+				continue
+			}
+			for _, key := range keys {
+				var ing []ssa.Value
+				c12Ingredients(key, &ing, map[ssa.Value]bool{})
+				s := eng.ExprDeep(key)
+				sep := false
+				if len(ing) >= 2 {
+					if kc, ok := ing[1].(*ssa.Const); ok && eng.Expr(kc) == `"/"` {
+						sep = true
+					}
+				}
+				switch {
+				case len(ing) >= 2 && sep && nfIsField(ing[0], nil, tokF):
+					c.OK(f, site, nc.In.Pos(), s)
+				case len(ing) < 2:
+					if _, isCall := key.(*ssa.Call); isCall {
+						c.Undecided(f, site, nc.In.Pos(), "the key "+s+" is computed by a function the rule cannot follow; the rule cannot be evaluated")
+					} else {
+						c.Violation(f, site, nc.In.Pos(), "cubbyhole storage accessed under "+s+", not under req.ClientToken + \"/\": tokens could read each other's cubbyholes", nil)
+					}
+				default:
+					c.Violation(f, site, nc.In.Pos(), "cubbyhole storage accessed under "+s+", not under req.ClientToken + \"/\": tokens could read each other's cubbyholes", nil)
+				}
+			}
+		}
+	}
+	c.Floor(nil, "cubbyhole storage accesses", nCub, 4)
+}
+
+// c12gGateEdges: the edges of f on which a boolean test (a call satisfying isTest) is known to
+// have returned `want` — the branch on the call itself, or the nil-error edge of a call of a
+// closure / same-package helper whose every success return lies behind such an edge.
+func c12gGateEdges(f *ssa.Function, fr *nfFrame, isTest func(nc nfCall, fr *nfFrame) bool, want bool, depth int) []eng.Edge {
+	var out []eng.Edge
+	for _, ci := range nfAllCalls(f) {
+		nc := nfCallOf(ci)
+		if isTest(nc, fr) {
+			if v := ci.Value(); v != nil {
+				out = append(out, eng.BoolEdges(v, want)...)
+			}
+			continue
+		}
+		cl, plain := ci.(*ssa.Call)
+		if !plain || depth == 0 {
+			continue
+		}
+		g := nfBody(ci, f)
+		if g == nil || g == f {
+			continue
+		}
+		idx := nfErrIdx(g)
+		if idx < 0 {
+			continue
+		}
+		inner := c12gGateEdges(g, &nfFrame{call: ci, up: fr}, isTest, want, depth-1)
+		if len(inner) == 0 {
+			continue
+		}
+		succ := eng.SuccessReturns(g, idx)
+		if len(succ) == 0 || eng.Reach(eng.Query{Fn: g, Blocked: inner, Target: eng.IsTarget(succ)}) != nil {
+			continue
+		}
+		out = append(out, eng.CallOKEdges(cl)...)
+	}
+	return out
 }
